@@ -354,7 +354,7 @@ func TestC30(t *testing.T) {
 		for _, c := range regressionLayouts() {
 			yield(withConcretisation(c, rnd))
 		}
-		nrand := vt.Pick(1500, 20000)
+		nrand := vt.Pick(1500, 10000)
 		for i := 0; i < nrand && !planHung.Load(); i++ {
 			yield(withConcretisation(randomLayout(rnd), rnd))
 		}
